@@ -175,6 +175,17 @@ add(
     "DESIGN.md §4 C09",
 )
 
+add(
+    "C16", "fault_enumeration",
+    "complete (REUSE.toml key x TOML type) table + Hypothesis-generated / corrupted TOML and dep5 documents, odd file bytes and injected read faults, each through every sub-command in-process; crash = any exception leaving main()",
+    "All 6 x 19 (key, value shape) documents in a root and a nested REUSE.toml, ~250 generated or corrupted TOML and dep5 documents per shard, ~170 "
+    "covered files / .license siblings / LICENSES texts / templates made of arbitrary or degenerate bytes per shard, with EACCES and vanishing-file faults "
+    "injected through an open() wrapper, are each run through lint (three formats), lint-file, spdx, annotate, download and convert-dep5: no escaping "
+    "exception, exit status in {0,1,2}, exit 2 names the file, clearly wrong types => exit 2, unreadable files are reported while the others still are.",
+    "In-process driving (an escaping exception is what a user sees as a traceback); read faults are injected into the reading commands only; whether a borderline value shape is 'broken' is asserted only for unambiguous types.",
+    "DESIGN.md §4 C16",
+)
+
 NOT_BUILT = "check not built yet in this revision of /verif (planned in DESIGN.md §4; property-based testing applies)"
 
 
